@@ -31,6 +31,7 @@ type Region struct {
 	aliasPtr   *PtrVal    // alias variant: element aliasIdx of the family is this object
 	aliasIdx   *Term
 	familyOf   *Region
+	tblKind    string // generator table region: huge | odd
 	lazy    bool // cells are created on demand as deterministic symbolic variables
 	created int  // state epoch of creation
 }
